@@ -10,6 +10,8 @@ import numpy as np
 
 from harness import common, lasio, sessions
 
+DRIVER = "c04"      # the aliasing models (Model/WriterAlias.v, Model/DataAlias.v) are served by bin/lasmodel_c04
+
 ASSUMPTIONS = ["numpy's packed structured dtype memory image is the concatenation of its fields (checked by the byte comparison)",
                "uncompressed destinations"]
 
@@ -204,6 +206,38 @@ def correspond(ctx):
             continue
         if t[0] != "ok" or common.unhex(t[7]) != lasio.rec_bytes(back.points) or int(t[5]) != back.header.point_format.size:
             dis.append({"kind": "read of written file", "input": c["desc"], "model": outs[k + 1][:80], "impl": f"{len(back.points)} points"})
+    # ---- histories over derived LasData objects vs Model/DataAlias.v; writer sessions with caller edits vs Model/WriterAlias.v
+    ctx.extra["rule"] += (" || histories (2..8 steps) over several live LasData: derive by indexing (slices incl. strided / reversed, masks, index lists, "
+                          "one integer), laspy.convert, reading back, two read() of one open reader; edit ONE object in place (add/remove extra dimensions, "
+                          "header scale/offset setters and arrays, change_scaling, vlrs, evlrs, global encoding, strings, record contents, points "
+                          "re-assignment); after every derivation a structural sharing probe of parent and child perturbs each shared mutable object through "
+                          "the child; after every step EVERY live object is written and read back and judged against what was done to that object alone. "
+                          "|| files streamed through a writer kept open (LasWriter / laspy.open mode w, with-blocks incl. left by an exception) while the "
+                          "caller edits in place the header it handed in, read back and compared with the header as it was at open")
+    hs = [h for h in histories(ctx) if h.get("cmd")]
+    mo = common.run_model([h["cmd"] for h in hs], name="c04")
+    for h, line in zip(hs, mo):
+        ctx.traces += 1
+        got = [] if line == "-" else line.split(" ")
+        want = [("ok:" + common.hexb(raw)) if raw is not None else "err" for _, raw in h["written"]]
+        if len(got) != len(want) or any(g != w and not (w == "err" and g.startswith("err")) for g, w in zip(got, want)):
+            which = [nm for (nm, _), g, w in zip(h["written"], got, want) if g != w]
+            dis.append({"kind": KIND_READER if h["reader_twice"] else "derived objects: file written at the end of the history",
+                        "input": h["desc"], "model": line[:100], "impl": f"objects whose file differs from the model's: {which or 'count'}"})
+    st = [r for r in streamed(ctx) if r.get("cmd")]
+    mo = common.run_model([r["cmd"] for r in st], name="c04")
+    for r, line in zip(st, mo):
+        ctx.traces += 1
+        m = line.split(" ")
+        exp_outs = ",".join(r["outs"]) or "-"
+        if len(m) < 2 or m[0] != exp_outs:
+            bad = [i for i, (a, b) in enumerate(zip(m[0].split(","), r["outs"])) if a != b]
+            if bad and r["expect"][bad[0]] == "refused" and r["outs"][bad[0]] == "ok":
+                ctx.count("streamed:chunk-of-another-format-accepted(C04's subject, reported there)")
+                continue
+            dis.append({"kind": "streamed: outcomes of the session", "input": r["desc"], "model": m[0][:100], "impl": exp_outs})
+        elif r["raw"] is not None and m[1] != common.hexb(r["raw"]):
+            dis.append({"kind": "streamed: file bytes", "input": r["desc"], "model": f"{(len(m[1]) - 1) // 2} bytes", "impl": f"{len(r['raw'])} bytes"})
     return dis
 
 
@@ -277,6 +311,49 @@ def search(ctx, seeds):
                 add("foreign file (partly described extra bytes): rewrite not idempotent", d, "write(read(f)) differs from write(read(write(read(f))))")
         except Exception as ex:
             add("foreign file (partly described extra bytes): " + type(ex).__name__, d, f"{type(ex).__name__}: {ex}")
+    for hst in histories(ctx):
+        ctx.case(repr(hst["desc"]), nontrivial=hst["edits"] > 0 and hst["live"] > 1)
+        ctx.count("history:steps", hst["steps"])
+        for hw in hst["derivations"]:
+            ctx.count("history:derive:" + hw)
+        for pr in hst["probe"]:
+            ctx.count("history:probe-shared:" + pr.split(" (")[-1].rstrip(")") + ":" + pr.split(" is ")[0].split(".")[-1].split("[")[0])
+        for kind, why, at in hst["failures"][:2]:
+            add(kind, dict(hst["desc"], ops=hst["desc"]["ops"][:at]), why)
+    for r in streamed(ctx):
+        d = r["desc"]
+        ctx.case(repr(d), nontrivial=len(d["ops"]) > 3)
+        ctx.count("streamed:mode:" + r["mode"])
+        if r["raw"] is None or (r["outs"] and r["outs"][0].startswith("open-err")):
+            continue
+        for what, where in r["problems"]:
+            add("streamed: " + what, d, f"during: {where}")
+        oh = r["open_header"]
+        try:
+            back = laspy_read(r["raw"])
+        except Exception as ex:
+            add("streamed file cannot be read", d, f"{type(ex).__name__}: {ex}; sharing probe: {r['probe'][:4]}")
+            continue
+        leaked = any(e == "refused" and o == "ok" for e, o in zip(r["expect"], r["outs"]))
+        if lasio.format_key(back.point_format) != lasio.format_key(oh.point_format):
+            add("streamed: point format differs after round trip", d, f"{lasio.format_key(back.point_format)} != {lasio.format_key(oh.point_format)} (the header when the writer was opened)")
+        if [lasio.f64bits(x) for x in back.header.scales] != [lasio.f64bits(x) for x in oh.scales] or \
+           [lasio.f64bits(x) for x in back.header.offsets] != [lasio.f64bits(x) for x in oh.offsets]:
+            add("streamed: scales/offsets differ after round trip", d, f"read back {list(back.header.scales)} {list(back.header.offsets)}; the header had {list(oh.scales)} {list(oh.offsets)} when the writer was opened")
+        if str(back.header.version) != str(oh.version):
+            add("streamed: version differs after round trip", d, f"{back.header.version} != {oh.version}")
+        if not leaked:
+            if lasio.rec_bytes(back.points) != r["accepted"]:
+                add("streamed: records differ after round trip", d, f"{len(lasio.rec_bytes(back.points))} bytes read back, {len(r['accepted'])} bytes were accepted by write_points; contents differ")
+            if back.header.point_count * oh.point_format.size != len(r["accepted"]):
+                add("streamed: point count differs after round trip", d, f"header says {back.header.point_count}, {len(r['accepted']) // oh.point_format.size} records were accepted")
+        b2 = io.BytesIO()
+        try:
+            back.write(b2)
+            if b2.getvalue() != r["raw"] and not leaked:
+                add("streamed: write after read is not idempotent", d, f"lengths {len(r['raw'])} then {len(b2.getvalue())}")
+        except Exception as ex:
+            add("streamed: write after read is not idempotent", d, f"rewrite raised {type(ex).__name__}: {ex}")
     for las, budget, size, raised, same in failing_write_cases(ctx):
         ctx.case(("failing-write", budget, size), nontrivial=True)
         ctx.count("failing-write")
@@ -284,7 +361,7 @@ def search(ctx, seeds):
             add("a failed write left the caller's record modified", {"version": str(las.header.version), "format": las.header.point_format.id, "points": len(las.points),
                                                                      "fails_after_bytes": budget, "file_size": size},
                 "the destination raised OSError during the write; the scale-aware record (rescaled in place for the write) was not restored")
-    return failing[:8]
+    return failing[:10]
 
 
 def laspy_read(raw):
@@ -339,6 +416,332 @@ def failing_write_cases(ctx):
             raised = True
         out.append((las, budget, size, raised, sessions.snapshot(las) == snap))
     return out
+
+
+# =====================================================================================================================
+# round 4: LasData objects DERIVED from one another (indexing, convert, read back, two reads of one open reader), each then used
+# on its own; files streamed through a writer kept open while the caller edits the header it handed in
+# =====================================================================================================================
+KIND_READER = "two LasData read from one open reader are not independent"
+
+
+def _observe(las):
+    """what an operation on ANOTHER object must not change, and what a round trip must give back"""
+    return {"format": lasio.format_key(las.points.point_format), "header_format": lasio.format_key(las.header.point_format),
+            "scales": [lasio.f64bits(x) for x in las.header.scales], "offsets": [lasio.f64bits(x) for x in las.header.offsets],
+            "version": str(las.header.version), "recs": lasio.rec_bytes(las.points), "count": len(las.points),
+            "record_size": int(las.points.array.dtype.itemsize)}
+
+
+def _pending_rescale(las):
+    return bool(np.any(las.points.scales != las.header.scales) or np.any(las.points.offsets != las.header.offsets))
+
+
+def _judge(las, exp, final):
+    """C01 on one object, against the harness's own record `exp` of what was done to THIS object; returns [(kind, observed)]"""
+    out = []
+    now = _observe(las)
+    for k in ("format", "header_format", "scales", "offsets", "version", "count", "record_size", "recs"):
+        if now[k] != exp[k]:
+            out.append((k, f"in memory: {k} is {str(now[k])[:80]}, the operations on this object left it at {str(exp[k])[:80]}"))
+    snap = sessions.snapshot(las)
+    b = io.BytesIO()
+    try:
+        las.write(b)
+    except Exception as ex:
+        if exp.get("pending") and isinstance(ex, OverflowError) and not out:
+            # the header's scaling was edited on purpose and the stored coordinates do not fit it: a clean refusal (C11), nothing written back
+            return [] if sessions.snapshot(las) == snap else [("a refused write modified the caller's object", f"{type(ex).__name__}: {ex}")]
+        return [("write failed", f"{type(ex).__name__}: {ex}")] + [("changed by an operation on another object: " + k, w) for k, w in out]
+    if sessions.snapshot(las) != snap:
+        out.insert(0, ("write modified the caller's object", "snapshot of records / header / VLRs differs after LasData.write"))
+    raw = b.getvalue()
+    try:
+        back = laspy_read(raw)
+    except Exception as ex:
+        return [("written file cannot be read", f"{type(ex).__name__}: {ex}")] + [("changed by an operation on another object: " + k, w) for k, w in out]
+    res = []
+    if exp.get("pending"):
+        for i, k in enumerate("xyz"):
+            err = np.abs(np.array(back[k]) - np.array(las.points[k]))
+            mag = float(np.abs(np.array(las.points[k])).max()) if len(err) else 0.0
+            if len(err) and float(err.max()) > 0.5 * float(back.header.scales[i]) * (1 + 1e-9) + 1e-12 + 1e-12 * mag:
+                res.append(("rescaled write moved coordinates", f"{k}: max error {float(err.max())} > half a step {0.5 * float(back.header.scales[i])}"))
+    elif lasio.rec_bytes(back.points) != exp["recs"]:
+        res.append(("records differ after round trip", f"{len(back.points)} records of {back.points.array.dtype.itemsize} bytes read, {exp['count']} of {exp['record_size']} written; bytes differ"))
+    if len(back.points) != exp["count"] or back.header.point_count != exp["count"]:
+        res.append(("point count differs after round trip", f"header {back.header.point_count}, records {len(back.points)}, the object has {exp['count']}"))
+    if lasio.format_key(back.point_format) != exp["format"]:
+        res.append(("point format differs after round trip", f"{lasio.format_key(back.point_format)} != {exp['format']}"))
+    if str(back.header.version) != exp["version"]:
+        res.append(("version differs after round trip", f"{back.header.version} != {exp['version']}"))
+    if [lasio.f64bits(x) for x in back.header.scales] != exp["scales"] or [lasio.f64bits(x) for x in back.header.offsets] != exp["offsets"]:
+        res.append(("scales/offsets differ after round trip", f"read back {list(back.header.scales)} {list(back.header.offsets)}"))
+    if final:
+        b2 = io.BytesIO()
+        try:
+            back.write(b2)
+            if b2.getvalue() != raw:
+                res.append(("write after read is not idempotent", f"lengths {len(raw)} then {len(b2.getvalue())}"))
+        except Exception as ex:
+            res.append(("write after read is not idempotent", f"rewrite raised {type(ex).__name__}: {ex}"))
+    return res + [("changed by an operation on another object: " + k, w) for k, w in out]
+
+
+def data_history(rng, thorough=False):
+    """a history over several live LasData objects: derive (indexing / convert / read back / two reads of one open reader), edit ONE
+    object in place through the public API, probe the object graphs of parent and child for shared mutable objects and perturb them
+    through the child; after every step every live object is judged by C01 against what was done to that object alone"""
+    import laspy
+    las0, _ = make_case(rng)
+    while getattr(las0, "_verif_rescale", False):
+        las0, _ = make_case(rng)
+    live = [{"name": "las0", "las": las0}]
+    live[0]["exp"] = _observe(las0)
+    desc = {"version": str(las0.header.version), "format": las0.header.point_format.id, "points": len(las0.points),
+            "extra": [(d.name, str(d.dtype)) for d in las0.point_format.extra_dimensions], "vlrs": len(las0.vlrs), "evlrs": len(las0.evlrs or []), "ops": []}
+    log = desc["ops"]
+    res = {"desc": desc, "failures": [], "probe": [], "steps": 0, "derivations": [], "edits": 0}
+    forced = []
+    # ---- the same history for the model (bin/lasmodel_c04 `dworld`): what the model is TOLD is only what each operation does to
+    # the object it is applied to; `mirror` is what the model believes of every object
+    mirror = {}
+    names = ["las0"]          # model index of every object ever created
+
+    def state_of(las):
+        h = las.header
+        evl = [lasio.vlr_tuple(v) for v in h.evlrs] if (h.version.minor >= 4 and h.evlrs is not None) else []
+        return {"assoc": lasio.header_assoc(h), "vlrs": [lasio.vlr_tuple(v) for v in h.vlrs], "evlrs": evl,
+                "fmt": sessions.format_value(las.points.point_format), "recs": lasio.rec_bytes(las.points)}
+
+    def sync(name, las):
+        """D token: what the operation just applied to `name` left in it, relative to what the model believes of that object"""
+        cur, old = state_of(las), mirror[name]
+        sets = {k: v for k, v in cur["assoc"].items() if k not in ("point_format_id", "point_size") and old["assoc"].get(k) != v}
+        tok = "D{}!{}!{}!{}!{}!{}".format(names.index(name), lasio.assoc_tok(sets),
+                                          "~" if cur["vlrs"] == old["vlrs"] else lasio.vlrs_tok(cur["vlrs"]),
+                                          "~" if cur["evlrs"] == old["evlrs"] else lasio.vlrs_tok(cur["evlrs"]),
+                                          "~" if cur["fmt"] == old["fmt"] else sessions.fmt_tok(cur["fmt"]),
+                                          "~" if cur["recs"] == old["recs"] else common.hexb(cur["recs"]))
+        mirror[name] = cur
+        if tok.endswith("!-!~!~!~!~"):
+            return []
+        return [tok]
+
+    st0 = state_of(las0)
+    mirror["las0"] = st0
+    toks = [lasio.assoc_tok(st0["assoc"]), lasio.vlrs_tok(st0["vlrs"]), lasio.vlrs_tok(st0["evlrs"]), sessions.fmt_tok(st0["fmt"]), common.hexb(st0["recs"])]
+
+    def shares_records(o):
+        return any(p is not o and len(p["las"].points) and len(o["las"].points) and np.shares_memory(p["las"].points.array, o["las"].points.array) for p in live)
+
+    def derive():
+        p = rng.choice(live)
+        n = len(p["las"].points)
+        how = rng.choice(["index", "index", "index", "convert", "reread", "reader-twice"])
+        name = f"las{len(names)}"
+        kids = []
+        try:
+            if how == "index":
+                cands = [slice(None), slice(0, 1), slice(None, None, 2), slice(None, None, -1), slice(1, None, 3)]
+                if n:
+                    cands += [np.array([n - 1]), np.array([i % 2 == 0 for i in range(n)]), [0] * 2, list(range(n))[::-1], np.ones(n, dtype=bool), np.zeros(n, dtype=bool), rng.randrange(n)]
+                else:
+                    cands += [np.zeros(0, dtype=bool), []]
+                ix = rng.choice(cands)
+                kids = [(name, p["las"][ix], f"{name} = {p['name']}[{ix!r}]".replace("\n", ""))]
+            elif how == "convert":
+                ids = [i for i in lasio.COMPAT[str(p["las"].header.version)]]
+                tid = rng.choice([None, None, rng.choice(ids)])
+                kids = [(name, laspy.convert(p["las"], point_format_id=tid), f"{name} = laspy.convert({p['name']}, point_format_id={tid})")]
+            elif how == "reread":
+                b = io.BytesIO(); p["las"].write(b)
+                kids = [(name, laspy_read(b.getvalue()), f"{name} = laspy.read(<bytes of {p['name']}.write()>)")]
+            else:
+                b = io.BytesIO(); p["las"].write(b)
+                with laspy.open(io.BytesIO(b.getvalue())) as r:
+                    a1 = r.read(); r.seek(0); a2 = r.read()
+                n2 = f"las{len(names) + 1}"
+                kids = [(name, a1, f"with laspy.open(<bytes of {p['name']}.write()>) as r: {name} = r.read(); r.seek(0); {n2} = r.read()"), (n2, a2, None)]
+        except Exception as ex:
+            log.append(f"# deriving from {p['name']} by {how} raised {type(ex).__name__}: {str(ex)[:80]}")
+            return
+        res["derivations"].append(how)
+        for nm, las, label in kids:
+            if label:
+                log.append(label)
+            o = {"name": nm, "las": las, "exp": _observe(las), "how": how}
+            if _pending_rescale(las):
+                o["exp"]["pending"] = True
+            live.append(o)
+            pi = names.index(p["name"])
+            pm = mirror[p["name"]]
+            if how == "index":
+                size = max(1, pm["fmt"][1])
+                cnt = len(pm["recs"]) // size
+                try:
+                    sel = [int(v) for v in np.atleast_1d(np.arange(cnt)[ix])]
+                except Exception:
+                    sel = []
+                toks.append(f"X{pi}:" + (",".join(map(str, sel)) if sel else "-"))
+                recs = b"".join(pm["recs"][k * size:(k + 1) * size] for k in sel)
+            else:
+                toks.append(f"K{pi}")
+                recs = pm["recs"]
+            names.append(nm)
+            mirror[nm] = dict(pm, recs=recs)
+            toks.extend(sync(nm, las))      # what deriving does to the NEW object beyond the copy (update_header, conversion, normalisation by the reader)
+        # sharing probe between the parent and each child (and between the two children of one reader)
+        pairs = [(p, live[-len(kids) + i]) for i in range(len(kids))] + ([(live[-2], live[-1])] if len(kids) == 2 else [])
+        for a, c in pairs:
+            for pa, pb, obj in sessions.shared_mutables(a["las"], c["las"]):
+                res["probe"].append(f"{a['name']}{pa} is {c['name']}{pb} ({type(obj).__name__})")
+                if a.get("how") == "reader-twice" and c.get("how") == "reader-twice" and not (isinstance(obj, np.ndarray) and obj.dtype.names):
+                    a["sibling_shared"] = c["sibling_shared"] = True      # the two results of one reader share header-level objects
+                    res["sibling_shared_any"] = True
+                if isinstance(obj, np.ndarray) and obj.dtype.names:
+                    continue        # record memory shared by a numpy view (slices): by numpy's semantics, each object still round-trips
+                if ".dimensions[" in pb and isinstance(obj, np.ndarray):
+                    continue        # scales / offsets inside an (immutable) DimensionInfo tuple: no public operation modifies them in place
+                if isinstance(obj, laspy.VLR) or type(obj).__name__.endswith("Vlr") or "extra_bytes_structs" in pb:
+                    res["shared_vlrs"] = res.get("shared_vlrs", 0) + 1
+                    continue        # the payload of a (E)VLR object: VLR identity is C08's subject, C01 does not speak about it
+                pert = sessions.perturbation_for(rng, pb, obj)
+                if pert is not None and len(forced) < 6:
+                    forced.append((c, pert))
+
+    def edit():
+        o = rng.choice(live)
+        las = o["las"]
+        nm = o["name"]
+        ex = [d.name for d in las.point_format.extra_dimensions]
+        k = rng.randrange(10000)
+        t = rng.choice(["u1", "u2", "i4", "f8", "2u2", "3f4", "5u1"])
+        i = rng.randrange(3)
+        ax = "xyz"[i]
+        sv = rng.choice([0.001, 0.01, 0.5, 2.0])
+        ov = rng.choice([0.0, 1.5, -2.0, 1000.0])
+        c = [(f"{nm}.add_extra_dim(ExtraBytesParams('h{k}', {t!r}))", lambda: las.add_extra_dim(laspy.ExtraBytesParams(f"h{k}", t))),
+             (f"{nm}.add_extra_dims([ExtraBytesParams('h{k}', {t!r}), ExtraBytesParams('g{k}', 'u1')])", lambda: las.add_extra_dims([laspy.ExtraBytesParams(f"h{k}", t), laspy.ExtraBytesParams(f"g{k}", "u1")])),
+             (f"{nm}.add_extra_dim(ExtraBytesParams('h{k}', {t!r}))", lambda: las.add_extra_dim(laspy.ExtraBytesParams(f"h{k}", t)))]
+        if las.points.array.ndim:      # re-expressing a 0-d record in another scaling is C11's business (it fails today)
+            c += [(f"{nm}.header.{ax}_offset = {ov!r}", lambda: setattr(las.header, f"{ax}_offset", ov)),
+                  (f"{nm}.header.{ax}_scale = {sv!r}", lambda: setattr(las.header, f"{ax}_scale", sv)),
+                  (f"{nm}.header.scales[{i}] *= 2", lambda: las.header.scales.__setitem__(i, las.header.scales[i] * 2)),
+                  (f"{nm}.header.offsets[{i}] += 1.5", lambda: las.header.offsets.__setitem__(i, las.header.offsets[i] + 1.5)),
+                  (f"{nm}.header.offsets = np.array([{ov!r}]*3)", lambda: setattr(las.header, "offsets", np.array([ov] * 3)))]
+        if las.points.array.ndim and not shares_records(o):
+            c += [(f"{nm}.change_scaling(offsets=[{ov!r}]*3)", lambda: las.change_scaling(offsets=np.array([ov] * 3)))]
+        c += [(f"{nm}.vlrs.append(VLR)", lambda: las.vlrs.append(lasio.rand_vlr(rng, 40))),
+             (f"{nm}.header.global_encoding.value ^= 1", lambda: setattr(las.header.global_encoding, "value", las.header.global_encoding.value ^ 1)),
+             (f"{nm}.header.system_identifier = 'edited'", lambda: setattr(las.header, "system_identifier", "edited")),
+             (f"{nm}.update_header()", lambda: las.update_header())]
+        if ex:
+            v = rng.choice(ex)
+            c += [(f"{nm}.remove_extra_dim({v!r})", lambda: las.remove_extra_dim(v))] * 2
+            c += [(f"{nm}.remove_extra_dims({ex!r})", lambda: las.remove_extra_dims(list(ex)))]
+        if len(las.vlrs) and type(las.vlrs[-1]).__name__ != "ExtraBytesVlr":     # removing the descriptor of one's own extra dimensions is the caller's error
+            c += [(f"{nm}.vlrs.pop()", lambda: las.vlrs.pop())]
+        if las.header.version.minor >= 4:
+            c += [(f"{nm}.evlrs = VLRList([VLR])", lambda: setattr(las, "evlrs", laspy.vlrs.vlrlist.VLRList([lasio.rand_vlr(rng, 30)])))]
+        if len(las.points) and not shares_records(o):
+            val = rng.randrange(32)
+            c += [(f"{nm}.classification = {val}  (all points)", lambda: setattr(las, "classification", np.full(len(las.points), val % (32 if las.point_format.id < 6 else 256), dtype=np.uint8))),
+                  (f"{nm}.X = {nm}.X[::-1]", lambda: setattr(las, "X", np.array(las.X)[::-1].copy())),
+                  (f"{nm}.points = {nm}.points[::-1]  (same format)", lambda: setattr(las, "points", las.points[::-1]))]
+        label, th = rng.choice(c)
+        run_edit(o, label, th)
+
+    def run_edit(o, label, th):
+        try:
+            th()
+            log.append(label)
+        except Exception as ex:
+            # what a FAILED operation leaves behind is the business of the property about that operation (C13, C11): the object
+            # is not used any more; every other live object still is
+            log.append(label + f"   # raised {type(ex).__name__}: {str(ex)[:60]} -- {o['name']} is not used any more")
+            live.remove(o)
+            res["failed_edits"] = res.get("failed_edits", 0) + 1
+            return
+        res["edits"] += 1
+        o["exp"] = _observe(o["las"])
+        if _pending_rescale(o["las"]):
+            o["exp"]["pending"] = True
+        toks.extend(sync(o["name"], o["las"]))
+
+    def judge_all(final=False):
+        for o in live:
+            for kind, why in _judge(o["las"], o["exp"], final):
+                if o.get("sibling_shared"):
+                    res["failures"].append((KIND_READER, f"{o['name']}: {kind}: {why}", len(log)))
+                else:
+                    res["failures"].append(("derived objects: " + kind, f"{o['name']}: {why}", len(log)))
+            if res["failures"]:
+                return True
+        return False
+
+    nsteps = rng.randrange(2, 6 if not thorough else 9)
+    for step in range(nsteps):
+        res["steps"] += 1
+        if forced and rng.random() < 0.8:
+            c, (lab, th) = forced.pop(0)
+            if c not in live:
+                continue
+            run_edit(c, f"PROBE-DIRECTED through {c['name']}: " + lab, th)
+        elif len(live) == 0:
+            break
+        elif len(live) < 2 or (rng.random() < 0.4 and len(live) < 5):
+            derive()
+            continue
+        else:
+            edit()
+        if judge_all():
+            break
+    if not res["failures"]:
+        judge_all(final=True)
+    res["live"] = len(live)
+    # what every live object writes at the end, for the model comparison (objects whose header scaling was edited are re-expressed
+    # by the writer: C11's rule, not modelled here)
+    res["written"] = []
+    for o in live:
+        if o["exp"].get("pending") or _pending_rescale(o["las"]):
+            continue
+        b = io.BytesIO()
+        try:
+            o["las"].write(b)
+            res["written"].append((o["name"], b.getvalue()))
+        except Exception as ex:
+            res["written"].append((o["name"], None))
+        toks.append(f"W{names.index(o['name'])}")
+    res["cmd"] = "dworld " + " ".join(toks)
+    res["reader_twice"] = any(o.get("sibling_shared") for o in live) or bool(res.get("sibling_shared_any"))
+    return res
+
+
+_HIST = None
+_STREAMED = None
+
+
+def histories(ctx):
+    global _HIST
+    if _HIST is None:
+        cases(ctx)
+        _HIST = [data_history(ctx.rng, ctx.thorough()) for _ in range(ctx.n(250, 3000))]
+    return _HIST
+
+
+def streamed(ctx):
+    """writer sessions in which the caller keeps editing the header it handed in (sessions.alias_writer_session), judged by C01:
+    what was streamed is read back byte for byte, with the format, scaling and version the header had when the writer was opened"""
+    global _STREAMED
+    if _STREAMED is None:
+        histories(ctx)
+        tmp = tempfile.mkdtemp(prefix="verif_c01s_", dir="/var/tmp")
+        try:
+            _STREAMED = [sessions.alias_writer_session(ctx.rng, ctx.thorough(), tmp) for _ in range(ctx.n(200, 2500))]
+        finally:
+            shutil.rmtree(tmp, ignore_errors=True)
+    return _STREAMED
 
 
 def replay(ctx, data):
